@@ -123,6 +123,19 @@ fn assert_eq(_: &mut ExecutionContext, mut args: Args) -> ControlFlow {
         let rhs_original = rhs_arg.value.unsafe_as_quantity();
         let eps = quantity_arg!(args);
 
+        // A zero tolerance can be written without a unit (the literal `0` has any
+        // dimension): compare in the unit of one of the operands then.
+        let eps = if eps.is_zero() && eps.unit().is_scalar() {
+            let unit = if lhs_original.is_zero() {
+                rhs_original.unit()
+            } else {
+                lhs_original.unit()
+            };
+            eps.convert_to(unit).unwrap_or(eps)
+        } else {
+            eps
+        };
+
         let lhs_converted = lhs_original.convert_to(eps.unit());
         let lhs_converted = match lhs_converted {
             Err(e) => return ControlFlow::Break(RuntimeErrorKind::QuantityError(e)),
